@@ -244,7 +244,7 @@ class Ctx:
         multi = self.rng.random() < 0.5 if multi is None else multi
         if multi:
             return self.unit([desc], self.pool1)
-        atoms = ["F", "Cl", "Br", "[H]", "O", "N", "C"] if not self.typable else ["[H]", "F", "C", "O"]
+        atoms = ["F", "Cl", "Br", "[H]", "O", "N", "C", "[O-]", "[S-]", "[13CH3]", "[2H]", "[NH3+]"] if not self.typable else ["[H]", "F", "C", "O"]  # charged / isotopic one-atom groups too
         return single_atom_token(self.rng.choice(atoms), desc)
 
     def plain(self, heavy=True):
@@ -369,7 +369,11 @@ def arch_block(ctx, families=None, mean_units=None):
                 if per_block_ids:
                     ctx.base_id = ids[b + 1]
                 d2 = ctx.gt(weight=r.choice([0.0, 0.0, 0.0, None, 2.0, 0.5]))  # the hand-over side; its weight is irrelevant when it is the only candidate left
-                els.append(ctx.unit([D(d1.sym, d1.id), d2], style="ends"))
+                d1 = D(d1.sym, d1.id)
+                if r.random() < 0.3:
+                    # the zero weight on the descriptor written FIRST (in the undirected form both descriptors are candidates for the incoming one)
+                    d1.weight, d2.weight = 0.0, r.choice([None, 2.0, 0.5])
+                els.append(ctx.unit([d1, d2], style="ends"))
     els.append(ctx.plain())
     return MolAst(els, arch="block")
 
